@@ -1,5 +1,6 @@
-\* the cache as the pinned tree has it: C10 is violated by the design model itself
-CONSTANTS NK = 3  NV = 2  Cap = 2  MaxH = 3  RecordHist = TRUE  SimDepth = 0
+\* the cache as the pinned tree has it (all named deviations on): the design model itself violates C10
+CONSTANTS NK = 2  Cap = 2  MaxH = 2  Restarts = TRUE  RecordHist = TRUE  SimDepth = 0
+CONSTANT Vals <- VE1
 CONSTANT Dev <- AllDev
 INIT Init
 NEXT Next
